@@ -227,6 +227,30 @@ def sequence_leg(n_variants, kind, chunked):
                         elif kind == "transcript":
                             obj = TranscriptInterval([b[0] for b in bl], [b[1] for b in bl], strand, guid=90, parent_or_seq_chunk_parent=par())
                             got = str(obj.incorporate_variants(hap).get_spliced_sequence())
+                        elif kind == "coding_tx":
+                            # CDS = second half of the first exon .. first half of the second exon (UTR on both sides)
+                            cb = [((bl[0][0] + bl[0][1]) // 2, bl[0][1]), (bl[1][0], (bl[1][0] + bl[1][1] + 1) // 2)]
+                            if any(not (c[0] <= vs and ve <= c[1]) for vs, ve, alt in edits for c in cb if c[0] < ve and vs < c[1]):
+                                continue  # a variant cutting a CDS block boundary: outside the property
+                            obj = TranscriptInterval([b[0] for b in bl], [b[1] for b in bl], strand, [c[0] for c in cb], [c[1] for c in cb],
+                                                     [CDSFrame.ZERO, CDSFrame.ZERO], guid=90, parent_or_seq_chunk_parent=par())
+                            new = obj.incorporate_variants(hap)
+                            got = str(new.get_spliced_sequence())
+                            cpieces = []
+                            for s_, e_ in cb:
+                                cpieces.append(_apply(REF[s_:e_], [(vs - s_, ve - s_, alt) for vs, ve, alt in edits if s_ <= vs and ve <= e_]))
+                            cexp = "".join(cpieces)
+                            if strand is MINUS:
+                                cexp = "".join({"A": "T", "C": "G", "G": "C", "T": "A"}[c] for c in reversed(cexp))
+                            try:
+                                cgot = str(new.cds.chunk_relative_location.extract_sequence()) if new.cds is not None else ""
+                            except EmptyLocationException:
+                                cgot = ""
+                            if cgot != cexp:
+                                return False
+                            # the CDS stays inside the transcript's exons on the alternative haplotype
+                            if cexp and not new.chunk_relative_location.contains(new.cds.chunk_relative_location):
+                                return False
                         else:
                             obj = CDSInterval([b[0] for b in bl], [b[1] for b in bl], strand, [CDSFrame.ZERO, CDSFrame.ZERO], guid=90,
                                               parent_or_seq_chunk_parent=par())
@@ -319,7 +343,7 @@ def obligations(tier):
                    bounds="unbounded symbolic coordinates, 3 variants, every input order",
                    examples=[dict(v1s=10, v1l=3, v2s=12, v2l=1, v3s=20, v3l=1), dict(v1s=10, v1l=3, v2s=20, v2l=1, v3s=14, v3l=1)]))
     for nv in (1, 2):
-        for kind in ("location", "feature", "transcript", "cds"):
+        for kind in ("location", "feature", "transcript", "cds", "coding_tx"):
             for chunked in ((False,) if quick and kind != "location" else (False, True)):
                 if quick and nv == 2 and kind in ("transcript",):
                     continue
@@ -338,7 +362,8 @@ def obligations(tier):
                                desc="%d variant(s) on a concrete reference%s: alternative_genomic_sequence == literal substitution; %s after incorporating the "
                                     "variants == reference blocks with the edits applied" % (nv, " chunk" if chunked else "",
                                                                                        {"location": "lifted location's sequence", "feature": "feature spliced sequence",
-                                                                                        "transcript": "transcript spliced sequence", "cds": "CDS block sequence"}[kind]),
+                                                                                        "transcript": "transcript spliced sequence", "cds": "CDS block sequence",
+                                                                                        "coding_tx": "coding transcript's spliced sequence AND its CDS (kept inside the exons)"}[kind]),
                                bounds="24-nt reference, variant offsets 0..8 (2 variants: 0..3 each), reference spans 1..2, alt lengths 0..3 (realised); 5 two-block layouts x both strands (native loop)",
                                examples=[ex]))
     return out
